@@ -72,6 +72,7 @@ struct AbortCtl
 struct Node
 {
   int s = 0; // sandbox
+  int cbsel = 0; // which of the sandbox's two registered callbacks the guest calls
   int width = 0; // callback calls the guest makes
   bool unrep_arg = false; // candidate: argument not representable (sim only) -> invoke aborts before the guest runs
   struct Child
@@ -96,6 +97,7 @@ static Tree make_tree(uint64_t seed, int maxdepth, int maxwidth, int nsbx)
     t.nodes.emplace_back();
     Node n;
     n.s = (int)r.below((uint64_t)nsbx);
+    n.cbsel = (int)r.below(2);
     n.width = depth >= maxdepth ? (int)r.below(2) : (int)r.below((uint64_t)maxwidth + 1);
     for (int i = 0; i < n.width; i++) {
       Node::Child c;
@@ -237,9 +239,9 @@ struct Runner
     const Node& n = tree.nodes[(size_t)ni];
     const Node::Child& ch = n.ch[(size_t)i];
     size_t enter_read = model_reads++;
-    exp.push_back(ExpHook{ false, 1, n.s, false, st[(size_t)n.s], n.s }); // OUT(CALLBACK)
+    exp.push_back(ExpHook{ false, 1, n.s, false, st[(size_t)n.s], n.s * 2 + n.cbsel }); // OUT(CALLBACK)
     auto close = [&] {
-      exp.push_back(ExpHook{ true, 1, n.s, false, st[(size_t)n.s], n.s }); // IN(CALLBACK) carries the state at that moment
+      exp.push_back(ExpHook{ true, 1, n.s, false, st[(size_t)n.s], n.s * 2 + n.cbsel }); // IN(CALLBACK) carries the state at that moment
       expt.push_back(ExpTiming{ n.s, 1, enter_read, model_reads++, false });
     };
     try {
@@ -283,7 +285,7 @@ struct Runner
     } pop{ cur_node };
     if (abort_args)
       c.fired("F9_abort_at_argument_conversion");
-    return BT<Sbx>::multi(*sb[(size_t)n.s], *own[(size_t)n.s], a, 1u, n.width);
+    return BT<Sbx>::multi(*sb[(size_t)n.s], *own[(size_t)(n.s * 2 + n.cbsel)], a, 1u, n.width);
   }
 
   long body(void* sbx)
@@ -356,13 +358,18 @@ struct Runner
     }
     next_state_model = next_state;
     // one callback function per sandbox (distinct keys)
+    // two callbacks per sandbox (distinct functions, hence distinct keys and distinct backend slots)
     if (nsbx > 0) {
       own.push_back(std::make_unique<Owner>(sb[0]->register_callback(cbT<Sbx, 0>)));
       keys.push_back(reinterpret_cast<void*>(&cbT<Sbx, 0>));
+      own.push_back(std::make_unique<Owner>(sb[0]->register_callback(cbT<Sbx, 1>)));
+      keys.push_back(reinterpret_cast<void*>(&cbT<Sbx, 1>));
     }
     if (nsbx > 1) {
-      own.push_back(std::make_unique<Owner>(sb[1]->register_callback(cbT<Sbx, 1>)));
-      keys.push_back(reinterpret_cast<void*>(&cbT<Sbx, 1>));
+      own.push_back(std::make_unique<Owner>(sb[1]->register_callback(cbT<Sbx, 2>)));
+      keys.push_back(reinterpret_cast<void*>(&cbT<Sbx, 2>));
+      own.push_back(std::make_unique<Owner>(sb[1]->register_callback(cbT<Sbx, 3>)));
+      keys.push_back(reinterpret_cast<void*>(&cbT<Sbx, 3>));
     }
     g_hooks.clear();
     g_body = [&](void* sbx) { return body(sbx); };
@@ -471,7 +478,7 @@ struct Runner
             c.violate("C19", "timing_record_out_of_simulated_range@tree", "time %lld (simulated span %lld ns; every crossing spans at least two clock readings)", (long long)rec.time, (long long)g_clock_now);
             break;
           }
-          if (is_inv ? (!rec.name || strcmp(rec.name, "g_multi") != 0 || rec.ptr != BT<Sbx>::fn_identity(*sb[(size_t)s])) : (rec.ptr != keys[(size_t)s])) {
+          if (is_inv ? (!rec.name || strcmp(rec.name, "g_multi") != 0 || rec.ptr != BT<Sbx>::fn_identity(*sb[(size_t)s])) : (rec.ptr != keys[(size_t)s * 2] && rec.ptr != keys[(size_t)s * 2 + 1])) {
             c.violate("C19", "timing_record_wrong_identity@tree", "a %s record of sandbox #%d", is_inv ? "INVOKE" : "CALLBACK", s);
             break;
           }
